@@ -732,8 +732,26 @@ func (s *Service) serve(nc Conn) error {
 // Shutdown closes any existing connection to NATS Server.
 // Returns an error if service is not started.
 func (s *Service) Shutdown() error {
+	return s.shutdown(nil)
+}
+
+// shutdown shuts the service down. If only is not nil, it does so only if the
+// service is still using that connection.
+func (s *Service) shutdown(only *nats.Conn) error {
 	verifPoint("shutdown.enter", nil)
-	if !atomic.CompareAndSwapInt32(&s.state, stateStarted, stateStopping) {
+	if only != nil {
+		// The connection is set under the same lock before a run is started
+		s.ncmu.Lock()
+		if c, ok := s.nc.(*nats.Conn); !ok || c != only {
+			s.ncmu.Unlock()
+			return errNotStarted
+		}
+		swapped := atomic.CompareAndSwapInt32(&s.state, stateStarted, stateStopping)
+		s.ncmu.Unlock()
+		if !swapped {
+			return errNotStarted
+		}
+	} else if !atomic.CompareAndSwapInt32(&s.state, stateStarted, stateStopping) {
 		return errNotStarted
 	}
 
@@ -1153,8 +1171,10 @@ func (s *Service) handleDisconnect(_ *nats.Conn) {
 	}
 }
 
-func (s *Service) handleClosed(_ *nats.Conn) {
-	s.Shutdown()
+func (s *Service) handleClosed(nc *nats.Conn) {
+	// The callback is called asynchronously, possibly after the service has been
+	// shut down and served again: it only concerns the run using nc.
+	s.shutdown(nc)
 }
 
 func validateGetHandler(h Handler) {
